@@ -8,6 +8,7 @@ package mcp
 
 import (
 	"context"
+	"errors"
 	"fmt"
 	"io"
 	"net/http"
@@ -200,6 +201,109 @@ func TestVerifC05HTTPFailures(t *testing.T) {
 					continue
 				}
 				cases.Record(idx, fault+" "+obs, 4, func() string { return desc })
+			}
+		}
+	}
+	env.Finish(res)
+}
+
+// c05ConnectFailCase: a Connect that fails half way is a shutdown as well - the session the client
+// had begun to set up is closed and forgotten, nothing is left running.  The server (the SDK's own
+// handler) answers until the chosen step of the connection set-up, which is refused.
+func c05ConnectFailCase(version, refuse string, status int) (obs, sig, msg string) {
+	fail := func(s, format string, a ...any) (string, string, string) {
+		return "", "c05 connect-fails " + s, fmt.Sprintf(format, a...) + fmt.Sprintf(" [version=%s refused=%s status=%d]", version, refuse, status)
+	}
+	ctx := context.Background()
+	base := runtime.NumGoroutine()
+	s := NewServer(&Implementation{Name: "srv", Version: "1"}, &ServerOptions{Logger: quietLogger})
+	AddTool(s, &Tool{Name: "t"}, func(ctx context.Context, r *CallToolRequest, in map[string]any) (*CallToolResult, any, error) {
+		return &CallToolResult{}, nil, nil
+	})
+	h := NewStreamableHTTPHandler(func(*http.Request) *Server { return s }, &StreamableHTTPOptions{Logger: quietLogger, Stateless: version >= "2026-07-28"})
+	hx := &hxTransport{Handler: h}
+	refused := 0
+	hx.Intercept = func(req *http.Request, n int) (*http.Response, error) {
+		body, _ := io.ReadAll(req.Body)
+		hit := false
+		switch refuse {
+		case "standalone-get":
+			hit = req.Method == "GET"
+		default:
+			hit = req.Method == "POST" && strings.Contains(string(body), `"method":"`+refuse+`"`)
+		}
+		if !hit {
+			return nil, nil
+		}
+		refused++
+		if status == 0 {
+			return nil, errors.New("dial tcp: connection refused")
+		}
+		return &http.Response{StatusCode: status, Status: fmt.Sprint(status), Header: http.Header{"Content-Type": {"text/plain"}}, Body: io.NopCloser(strings.NewReader("refused")), Proto: "HTTP/1.1", ProtoMajor: 1, ProtoMinor: 1}, nil
+	}
+	c := NewClient(&Implementation{Name: "cli", Version: "1"}, &ClientOptions{Logger: quietLogger,
+		ToolListChangedHandler: func(context.Context, *ToolListChangedRequest) {}})
+	cctx, cancel := context.WithTimeout(ctx, time.Minute)
+	cs, err := c.Connect(cctx, &StreamableClientTransport{Endpoint: "http://srv.test/mcp", HTTPClient: hx.client(), MaxRetries: -1}, &ClientSessionOptions{ProtocolVersion: version})
+	cancel()
+	time.Sleep(time.Minute)
+	synctest.Wait()
+	outcome := "connect-failed"
+	if err == nil {
+		// the refused step was not essential (a standalone stream is optional): an ordinary session
+		outcome = "connected"
+		if _, err := cs.ListTools(ctx, nil); err != nil {
+			return fail("connected-session-unusable", "Connect succeeded but ListTools fails: %v", err)
+		}
+		cs.Close()
+		time.Sleep(time.Minute)
+		synctest.Wait()
+	}
+	for x := range s.Sessions() {
+		x.Close() // what the server keeps of a client that went away is its own business (idle timeout)
+	}
+	synctest.Wait()
+	c.mu.Lock()
+	nc := len(c.sessions)
+	c.mu.Unlock()
+	if nc != 0 {
+		return fail("session-not-removed", "Connect returned %v; the client still tracks %d session(s)", err, nc)
+	}
+	if left := runtime.NumGoroutine() - base; left > 0 {
+		buf := make([]byte, 1<<15)
+		buf = buf[:runtime.Stack(buf, true)]
+		return fail("goroutine-left-behind", "Connect returned %v; %d goroutine(s) are left:\n%s", err, left, buf)
+	}
+	return fmt.Sprintf("%s refused=%d", outcome, refused), "", ""
+}
+
+func TestVerifC05ConnectFails(t *testing.T) {
+	env := verifx.LoadEnv("C05")
+	res := env.NewResult()
+	cases := env.NewCases(res, "streamable-connect-fails-half-way")
+	for _, version := range []string{"2025-06-18", "2026-07-28"} {
+		for _, refuse := range []string{"initialize", "notifications/initialized", "standalone-get", "server/discover", "subscriptions/listen"} {
+			for _, status := range []int{0, 400, 404, 500} {
+				idx, mine := cases.Next()
+				if !mine {
+					continue
+				}
+				desc := fmt.Sprintf("version=%s refused=%s status=%d", version, refuse, status)
+				var obs, sig, msg string
+				func() {
+					defer func() {
+						if r := recover(); r != nil && sig == "" {
+							// (a verdict reached before the bubble complained about what is left running stands)
+							sig, msg = "c05 connect-fails panic-or-leak", fmt.Sprintf("%v [%s]", r, desc)
+						}
+					}()
+					synctest.Test(t, func(t *testing.T) { obs, sig, msg = c05ConnectFailCase(version, refuse, status) })
+				}()
+				if sig != "" {
+					cases.Violate(idx, sig, msg, 3)
+					continue
+				}
+				cases.Record(idx, refuse+" "+obs, 3, func() string { return desc })
 			}
 		}
 	}
